@@ -49,7 +49,14 @@ extern "C" {
 typedef struct htp_decompressor_gzip_t htp_decompressor_gzip_t;
 typedef struct htp_decompressor_t htp_decompressor_t;
 
+#ifdef OISF_LIBHTP_VERIF
+/* verification hook: the simulator may shrink the output buffer, so that the
+ * buffer-full paths run for small bodies too; 8192 unless it says otherwise */
+extern size_t htp_verif_gzip_buf_size;
+#define GZIP_BUF_SIZE           htp_verif_gzip_buf_size
+#else
 #define GZIP_BUF_SIZE           8192
+#endif
 
 #define DEFLATE_MAGIC_1         0x1f
 #define DEFLATE_MAGIC_2         0x8b
